@@ -304,7 +304,15 @@ func MutateToks(r *Rng, toks []Tok, pool []Tok) []Tok {
 	}
 	out := append([]Tok(nil), toks...)
 	i := r.Intn(len(out))
-	switch r.Intn(4) {
+	switch r.Intn(5) {
+	case 4:
+		// a word written as a string literal with the same contents: "query", """on""", "type"
+		if ws := WordIndexes(out); len(ws) > 0 {
+			k := ws[r.Intn(len(ws))]
+			out[k] = Quoted(out[k], r.Chance(1, 4))
+		} else {
+			out[i] = Pick(r, pool)
+		}
 	case 0:
 		out = append(out[:i], out[i+1:]...)
 	case 1:
@@ -316,4 +324,27 @@ func MutateToks(r *Rng, toks []Tok, pool []Tok) []Tok {
 		out[i] = Pick(r, pool)
 	}
 	return out
+}
+
+// WordIndexes: positions of tokens that are names (keywords included).
+func WordIndexes(toks []Tok) []int {
+	var out []int
+	for i, t := range toks {
+		if t.Punct || t.Text == "" {
+			continue
+		}
+		c := t.Text[0]
+		if c == '_' || (c >= 'a' && c <= 'z') || (c >= 'A' && c <= 'Z') {
+			out = append(out, i)
+		}
+	}
+	return out
+}
+
+// Quoted: the string (or block string) literal whose value is the token's text.
+func Quoted(t Tok, block bool) Tok {
+	if block {
+		return P("\"\"\"" + t.Text + "\"\"\"")
+	}
+	return P("\"" + t.Text + "\"")
 }
